@@ -24,6 +24,9 @@ ASSUMPTIONS = ['CPython str semantics', 'the model driver is the compiled form o
                'excluded on purpose: verbatim inside items/groups/math, `$a$$b$`, blank-padded environment names, '
                '`\\begin[a]`, an environment body starting with (blanks +) an opener, a bracket group directly '
                'after a command\'s brace arguments other than as its argument']
+LEAN_TARGETS = LEAN_TARGETS + ['TexSoupProofs.Properties.TableSpec']
+# entries of the generated tables that the property's statement names (they stop compiling when a table edit drops them)
+THEOREMS = THEOREMS + ['TexSoup.TableSpec.' + n for n in ['letter_chars', 'definition_commands']]
 
 _CACHE = {}
 
